@@ -9,7 +9,7 @@ TRUSTED_BASE = [
     "extraction: ExtrOcamlBasic + ExtrOcamlString, no Extract Constant of our own; OCaml 4.13.1",
     "extract/driver_update.ml, harness/cpp/drv_update.cpp, checks/c20.py (glue)",
     "hook H5 (BLOCH_VERIF_NOW, BLOCH_VERIF_LATEST_TAG) in update_manager.cpp",
-    "modelled not verified: network/TLS, tar, file installation, cache-file I/O failures, sub-second clock truncation in the cache file",
+    "modelled not verified: network/TLS, tar, file installation; of cache-file I/O failures only 'cannot be written / does not keep what is written'; the model's clock is in whole seconds (sub-second histories are run against the statement, hook H5 <s>.<ms>)",
 ]
 INT_MAX = 2147483647
 
@@ -41,12 +41,31 @@ def spec_action_ok(cur, lat, act):
         return c is None or l is None
     return False
 
-def spec_checksum_ok(content, asset, res):
-    exp = None
+SP = " \t\n\v\f\r"
+def spec_entry(line):
+    """(digest, name) of a checksums.txt line: the name is everything after the digest, the blanks and an optional '*'"""
+    t = line.lstrip(SP)
+    i = 0
+    while i < len(t) and t[i] not in SP:
+        i += 1
+    h, rest = t[:i], t[i:]
+    if not h or not rest:
+        return None
+    n = rest.lstrip(SP)
+    if n.startswith("*"):
+        n = n[1:]
+    n = n.rstrip(SP)
+    return (h, n) if n else None
+
+def spec_listed(content, asset):
     for line in content.split("\n"):
-        f = line.split()
-        if len(f) >= 2 and f[1].lstrip("*") == asset and (f[1] == asset or f[1] == "*" + asset):
-            exp = f[0]; break
+        e = spec_entry(line)
+        if e and e[1] == asset:
+            return e[0]
+    return None
+
+def spec_checksum_ok(content, asset, res):
+    exp = spec_listed(content, asset)
     if res.startswith("EXC"):
         return False
     if exp is None:
@@ -55,12 +74,7 @@ def spec_checksum_ok(content, asset, res):
 
 def spec_verdict_ok(content, asset, actual, res):
     """an archive goes on to installation only when the digest listed for exactly that asset name is the archive's"""
-    listed = None
-    if content is not None:
-        for line in content.split("\n"):
-            f = line.split()
-            if len(f) >= 2 and (f[1] == asset or f[1] == "*" + asset):
-                listed = f[0]; break
+    listed = spec_listed(content, asset) if content is not None else None
     if res.startswith("EXC") or res == "CRASH":
         return False
     good = listed is not None and listed.lower() == actual
@@ -69,11 +83,13 @@ def spec_verdict_ok(content, asset, actual, res):
 def gen_verdicts(rng, checks):
     out = []
     for content, asset in checks:
-        listed = None
-        for line in content.split("\n"):
-            f = line.split()
-            if len(f) >= 2 and (f[1] == asset or f[1] == "*" + asset):
-                listed = f[0]; break
+        listed = spec_listed(content, asset)
+        if listed is None:        # the digest a look-alike line lists for a differently named file: must not verify
+            for line in content.split("\n"):
+                f = line.split()
+                if len(f) >= 2 and f[1].lstrip("*") == asset and rng.random() < 0.7:
+                    out.append((content, asset, f[0].lower()))
+                    break
         wrong = "".join(rng.choice("0123456789abcdef") for _ in range(64))
         r = rng.random()
         if r < 0.1:
@@ -132,6 +148,9 @@ def gen_checksums(rng, n):
                 ls.append("# " + nm + " " + h)     # comment-like line mentioning the asset
             elif r < 0.26:
                 ls.append(nm + style + h)          # reversed fields
+            elif r < 0.40:
+                # an entry for a differently named file that begins like the asset; or the asset's, with trailing blanks / CR
+                ls.append(h + style + nm + rng.choice([" (1)", " old", " .sig", "\t2", "\r", " ", " \t", "  copy.tar.gz"]))
             else:
                 ls.append(h + style + nm)
         if rng.random() < 0.2:
@@ -141,6 +160,8 @@ def gen_checksums(rng, n):
         cases.append((content, asset))
     # the recorded defect witness first
     cases.insert(0, ("aaa  bloch-v1.2.3-Linux-X64.tar.gz.sig\nbbb  bloch-v1.2.3-Linux-X64.tar.gz\n", names[0]))
+    cases.insert(0, ("aaa  bloch-v1.2.3-Linux-X64.tar.gz (1)\nbbb  bloch-v1.2.3-Linux-X64.tar.gz\n", names[0]))
+    cases.insert(0, ("aaa  bloch-v1.2.3-Linux-X64.tar.gz old\n", names[0]))
     return cases
 
 H = 3600
@@ -160,12 +181,12 @@ def gen_seqs(rng, n):
             t += rng.choice([0, 1, 60, H, 24 * H, 71 * H, 72 * H - 1, 72 * H, 72 * H + 1, 100 * H, -5])
             f = rng.choice(vers[:-1] + ["!", "v1.1.0\n", " 2.0.0", "1.0.1\r\n"])   # a tag may arrive with white space around it
             r = rng.random()
-            mode = 1 if r < 0.12 else (2 if r < 0.24 else (3 if r < 0.30 else 0))   # 1 disabled by environment, 2/3 cache cannot be written
+            mode = 1 if r < 0.12 else (2 if r < 0.22 else (3 if r < 0.28 else (4 if r < 0.34 else 0)))   # 1 disabled by environment, 2/3/4 cache cannot be written
             invs.append("%d %d %s %s" % (t, mode, hx(cur), "!" if f == "!" else hx(f)))
         cases.append("seq %s %s" % (disk, " ".join(invs)))
     # a cache that holds a newer release and cannot be rewritten, three runs within seconds (then writable again)
     t = 1700000000
-    for mode in (2, 3):
+    for mode in (2, 3, 4):
         cases.insert(0, "seq %d:%s:0 " % (t, hx("v2.0.0")) + " ".join("%d %d %s %s" % (t + k, m, hx("1.0.0"), hx("v2.0.0"))
                                                                    for k, m in enumerate([mode, mode, mode, 0, 0])))
     return cases
@@ -203,6 +224,52 @@ def spec_seq_ok(case, out):
                 return False
             last = n
     return True
+
+def subsecond_runs(chk, drv, rng, n):
+    """the clock has sub-second resolution, the cache file has whole seconds: two notices must still be 72 hours apart in real
+    time (implementation against the statement; the model's clock is in whole seconds).  Hook H5 takes <seconds>.<ms>."""
+    tmp = os.path.join(vlib.BUILD, "tmp", "c20sub-%d" % os.getpid())
+    os.makedirs(tmp, exist_ok=True)
+    lines, times = [], []
+    for k in range(n):
+        t0 = 1700000000 + rng.randint(0, 10**6)
+        ms0 = rng.choice([0, 1, 500, 900, 999]) if k else 900
+        ts = [(t0, ms0)]
+        for _ in range(rng.randint(1, 3)):
+            t, ms = ts[-1]
+            d = rng.choice([72 * H - 1, 72 * H, 72 * H, 72 * H + 1, 10]) if k else 72 * H
+            ts.append((t + d, rng.choice([0, 1, 100, 499, 999]) if k else 100))
+        times.append([t + ms / 1000.0 for t, ms in ts])
+        lines.append("seq none " + " ".join("%d.%03d 0 %s %s" % (t, ms, hx("1.0.0"), hx("v1.1.0")) for t, ms in ts))
+    try:
+        cf = os.path.join(tmp, "cases.txt")
+        open(cf, "w").write("\n".join(lines) + "\n")
+        rc, out = vlib.sh([drv, cf, os.path.join(tmp, "cache")], timeout=600, env={"HOME": tmp})
+    finally:
+        shutil.rmtree(tmp, ignore_errors=True)
+    res = out.splitlines()
+    second = 0
+    for line, ts, r in zip(lines, times, res + ["CRASH"] * (len(lines) - len(res))):
+        m = re.match(r"^((?:\d+ )+)\|", r)
+        counts = [int(x) for x in m.group(1).split()] if m else None
+        bad = None
+        if counts is None or len(counts) != len(ts):
+            bad = "no result: %r" % r[:120]
+        else:
+            last = None
+            for t, c in zip(ts, counts):
+                if c > 1 or (c == 1 and last is not None and t - last < 72 * H):
+                    bad = "notices %.3f s apart, less than 72 hours (%d s)" % (t - last if last is not None else 0, 72 * H)
+                if c >= 1:
+                    second += last is not None
+                    last = t
+            if counts[0] != 1:
+                bad = bad or "no notice on the first run with an empty cache"
+        if bad:
+            chk.report("c20-subsecond", {"case_line": line, "times": ts, "impl": r,
+                                         "how": "drv_update cases.txt cachedir (seq: BLOCH_VERIF_NOW=<s>.<ms> per invocation; prints notices per invocation)"}, bad)
+    return {"histories": len(lines), "second_notices_seen": second}
+
 
 def run(chk):
     quick = chk.tier == "quick"
@@ -293,13 +360,15 @@ def run(chk):
                                              "first": unexplained[:5], "count": len(unexplained)},
                       "model and implementation disagree on %d cases where the statement-level oracle finds no fault" % len(unexplained),
                       no_input=True)
+    sub = subsecond_runs(chk, drv, rng, 60 if quick else 1500)
     chk.cov.update({
-        "traces_validated_against_impl": len(cases), "disagreements": disagreements,
+        "traces_validated_against_impl": len(cases), "disagreements": disagreements, "subsecond_histories": sub,
         "case_kinds": kinds, "distinct_version_strings": len(vers), "version_pairs": len(pairs),
         "rule": "structured version strings (v-prefix, 1-4 components incl. INT_MAX+-1 and 11/20-digit runs, suffixes, garbage); "
                 "all pairs of a 60-string core plus random pairs; generated checksums.txt (reordered, similarly named assets, "
                 "malformed/reversed lines); verification verdicts for those files with the listed digest (lower / upper case), a wrong one, a one-digit "
                 "difference, and no checksums.txt; invocation histories over a scratch cache with stubbed clock and lookup, a tenth of the invocations "
-                "disabled by environment and a fifth with a cache that cannot be written",
+                "disabled by environment and a fifth with a cache that cannot be written (hook, directory blocked, file linked to /dev/null); entries for files whose "
+                "name only begins like the asset's (\"<asset> (1)\", \"<asset> old\"), trailing blanks and CR; histories with millisecond clocks around the 72-hour edge",
     })
-    chk.assumptions += ["the release lookup returns an arbitrary tag (stubbed)", "cache file is writable; time in whole seconds"]
+    chk.assumptions += ["the release lookup returns an arbitrary tag (stubbed)", "the model's clock is in whole seconds; sub-second histories are checked against the statement directly"]
